@@ -239,7 +239,8 @@ def run_case(case, rec):
                 try:
                     sep.vle(feed, vap, liq, **case['spec'])
                 except Exception as e:
-                    if type(e).__name__ in ('InfeasibleRegion', 'NoEquilibrium', 'DomainError'): rec.refuse(f'vle refused: {type(e).__name__}'); return
+                    # the balance is stated for calls that return; a raise inside the equilibrium solver is counted, programming errors are still reported
+                    if not isinstance(e, (TypeError, AttributeError, KeyError, IndexError, NameError, UnboundLocalError)): rec.refuse(f'vle raised: {type(e).__name__}'); return
                     raise
                 balance(rec, 'vle-wrapper', tag, [fb], [arr(vap), arr(liq)], 'separations.vle')
                 rec.check(vap.phase == 'g' and liq.phase == 'l' and vap.T == liq.T and vap.P == liq.P, 'vle-wrapper', 'routing', f'vapour outlet phase {vap.phase}, liquid outlet phase {liq.phase}, T {vap.T}/{liq.T}')
@@ -252,7 +253,8 @@ def run_case(case, rec):
                 try:
                     sep.lle(feed, top, bot, top_chemical=case['topchem'], efficiency=case['eff'])
                 except Exception as e:
-                    if type(e).__name__ in ('InfeasibleRegion', 'NoEquilibrium', 'DomainError'): rec.refuse(f'lle refused: {type(e).__name__}'); return
+                    # the balance is stated for calls that return; a raise inside the equilibrium solver is counted, programming errors are still reported
+                    if not isinstance(e, (TypeError, AttributeError, KeyError, IndexError, NameError, UnboundLocalError)): rec.refuse(f'lle raised: {type(e).__name__}'); return
                     raise
                 balance(rec, 'lle-wrapper', tag + f'/eff{"=1" if case["eff"] == 1 else ("=0" if case["eff"] == 0 else "<1")}', [fb], [arr(top), arr(bot)], 'separations.lle')
                 rec.check(np.array_equal(arr(feed), fb), 'lle-wrapper', 'feed-changed', 'separations.lle changed the feed')
